@@ -73,6 +73,7 @@ struct Points {
     hits: HashMap<String, u64>,
     crash_at: HashMap<String, u64>,
     park: HashMap<String, bool>,   // name -> armed
+    tickets: HashMap<String, u64>, // name -> threads allowed to pass while armed
     parked: HashMap<String, u64>,  // name -> number of threads currently parked
     trace: Option<Vec<String>>,
 }
@@ -115,9 +116,20 @@ pub fn release(name: &str) {
     cv.notify_all();
 }
 
+/// Let exactly one thread parked (now or later) at `name` pass; `name` stays armed.
+pub fn pass_one(name: &str) {
+    let (m, cv) = points();
+    *m.lock().unwrap().tickets.entry(name.to_string()).or_insert(0) += 1;
+    cv.notify_all();
+}
+
 pub fn release_all() {
     let (m, cv) = points();
-    m.lock().unwrap().park.clear();
+    {
+        let mut p = m.lock().unwrap();
+        p.park.clear();
+        p.tickets.clear();
+    }
     cv.notify_all();
 }
 
@@ -164,7 +176,15 @@ pub fn point(name: &str) {
     }
     if p.park.get(name).copied().unwrap_or(false) {
         *p.parked.entry(name.to_string()).or_insert(0) += 1;
-        while p.park.get(name).copied().unwrap_or(false) {
+        loop {
+            if !p.park.get(name).copied().unwrap_or(false) {
+                break;
+            }
+            let t = p.tickets.get(name).copied().unwrap_or(0);
+            if t > 0 {
+                p.tickets.insert(name.to_string(), t - 1);
+                break;
+            }
             p = cv.wait(p).unwrap();
         }
         *p.parked.entry(name.to_string()).or_insert(1) -= 1;
